@@ -258,7 +258,15 @@ def explore(harness, root_prefix=(), max_paths=200000, seed_only=None, deadline=
                 if r == z3.unsat:
                     st["discharged"] += 1
                 elif r == z3.sat:
-                    m = ctx.s.model() if not isinstance(goal, bool) else ctx.model()
+                    # prefer a counterexample that also satisfies the witness-diversifying soft constraints
+                    softs = harness.soft(res) if hasattr(harness, "soft") else []
+                    neg = [] if isinstance(goal, bool) else [z3.Not(goal)]
+                    if softs and ctx.check(*neg, *softs) == z3.sat:
+                        m = ctx.s.model()
+                    elif ctx.check(*neg) == z3.sat:
+                        m = ctx.s.model()
+                    else:
+                        m = None
                     try:
                         req = harness.concretize(m, res)
                     except Exception as e:
